@@ -1232,6 +1232,51 @@ fn eq_overwrites_domain(_spec: &Spec) -> bool {
     false
 }
 
+/// does the router answer from the propagation run (`ConstraintAwareOptimizer::*_with_constraints`)
+/// instead of the constraint metadata?  Mirrors `usesProp` of Model/Opt.lean: the metadata stage
+/// declines when no bound in the direction of optimisation is registered and the domain is one of
+/// the symmetric "unbounded" fallback domains, or when the candidate lies outside the interval.
+/// In that route every props-level row takes part in the propagation.
+fn uses_prop(spec: &Spec, is_max: bool, obj: usize) -> bool {
+    let (mut lo, mut hi) = match spec.vars[obj] { SVar::F(a, b) => (a, b), SVar::I(..) => return false };
+    for q in &spec.posts {
+        if let SPost::EqImm(x, c) = q {
+            if *x == obj && *c >= lo && *c <= hi { lo = *c; hi = *c; }
+        }
+    }
+    if !spec.posts.iter().any(|p| matches!(p, SPost::Cmp(..) | SPost::PLin(..))) {
+        return false;
+    }
+    let cval = |o: &Opnd| match o { Opnd::C(c) => Some(*c), Opnd::K(k) => Some(*k as f64), Opnd::V(_) => None };
+    let mut cand: Option<f64> = None;
+    for q in &spec.posts {
+        if let SPost::Cmp(rel, l, r) = q {
+            let b = match (l, r) {
+                (Opnd::V(x), o) if *x == obj => cval(o).map(|c| (true, c)),
+                (o, Opnd::V(x)) if *x == obj => cval(o).map(|c| (false, c)),
+                _ => None,
+            };
+            if let Some((v_left, c)) = b {
+                let upper = matches!((rel, v_left), (Rel::Le | Rel::Lt, true) | (Rel::Ge | Rel::Gt, false) | (Rel::Eq, true));
+                let lower = matches!((rel, v_left), (Rel::Ge | Rel::Gt, true) | (Rel::Le | Rel::Lt, false) | (Rel::Eq, true));
+                if is_max && upper { cand = Some(cand.map_or(c, |d: f64| d.min(c))); }
+                if !is_max && lower { cand = Some(cand.map_or(c, |d: f64| d.max(c))); }
+            }
+        }
+    }
+    // (a propagation run that fails — an infeasible model — is ignored by the router, which then
+    // answers from the declared domain: the recorded classes again)
+    if !pb_tokens(spec).split(' ').nth(obj).map_or(false, |t| t.contains(':')) {
+        return false;
+    }
+    let fallback = (lo + hi).abs() < 1e-4 && [50.0, 100.0, 1000.0, 10000.0].iter().any(|b| (hi.abs() - b).abs() < 1e-9);
+    match cand.or(if fallback { None } else { Some(if is_max { hi } else { lo }) }) {
+        None => true,
+        // (strict bounds are moved by one ulp: irrelevant next to the step tolerance used here)
+        Some(v) => v < lo - 1e-9 || v > hi + 1e-9,
+    }
+}
+
 fn fast_class(spec: &Spec, is_max: bool, obj: usize, fails: &[Fail]) -> &'static str {
     if eq_overwrites_domain(spec) && fails.iter().any(|f| f.kind == "bounds") {
         return "float-eq-const-overwrites-domain";
@@ -1252,7 +1297,8 @@ fn fast_class(spec: &Spec, is_max: bool, obj: usize, fails: &[Fail]) -> &'static
             match p {
                 // (the fast path declines while deferred constraints are waiting: repaired, unlisted)
                 SPost::Lin(..) | SPost::Fluent(..) | SPost::FluentVV(..) => "-",
-                SPost::PLin(..) => "fast-path-ignores-props-linear-rows",
+                // (in the propagation route the props-level rows are honoured: not this class)
+                SPost::PLin(..) => if uses_prop(spec, is_max, obj) { "-" } else { "fast-path-ignores-props-linear-rows" },
                 // only a bound AGAINST the direction of optimisation is ignored by the router (maximize
                 // uses the upper bounds and ignores the lower ones, minimize the reverse); a violated
                 // bound in the direction of optimisation is not this recorded class
